@@ -427,7 +427,8 @@ def run(ctx):
         "limiter_ops_moved_off_float_boundary": sum(1 for a, b in zip(raw, ops) if a.split()[0] == "at" and a != b),
         "bursts": burst_rows,
         "judged": len(jops),
-        "source_facts": {"lockout_update": f14.get("totp", {}).get("lockout_update"), "backend_callers": f14.get("backend_callers"),
+        "source_facts": {"cleanup_deletes": f14.get("cleanup_deletes"), "totp_limiter_table_writers": f14.get("totp_limiter_table_writers"),
+                         "lockout_update": f14.get("totp", {}).get("lockout_update"), "backend_callers": f14.get("backend_callers"),
                          "limit_check": f14.get("limit_check"), "limiter_config": {k: v for k, v in f14.get("limiter_config", {}).items() if k != "limiter_uses"}},
         "samples": [{"op": ops[i], "impl": impl[i], "model": model[i]}
                     for i in list(range(1, 4)) + list(range(12, 15)) + at_idx[13:16] if i < len(ops)],
